@@ -7,6 +7,7 @@
 pub mod bpt;
 pub mod compaction;
 pub mod damage;
+pub mod dump;
 pub mod engine;
 pub mod oracle;
 pub mod pipefail;
